@@ -835,6 +835,13 @@ def alias_cases(ffs=("AMBER",), names=None):
                         if canon.startswith("H"):
                             d["hydrogens"] = True
                         out.append(d)
+                    if pos == "n" and canon in ("H", "H2", "H3"):
+                        # old-style names of the amino hydrogens under a
+                        # neutral N-terminus (the third one is to be dropped)
+                        for opt in ("neutraln", "neutral_both"):
+                            out.append({"x": x, "pos": pos, "ff": "PARSE",
+                                        "opt": opt, "hydrogens": True,
+                                        "env": [["alias", canon, alt]]})
                     if canon.startswith("H") or pos == "mid":
                         continue
                     for opt in (("neutraln", "neutral_both") if pos == "n"
